@@ -1350,6 +1350,17 @@ func (e *Env) evalCall(n *ECall) SVal {
 			}
 		}
 		e.fail("container: no field %s", fname)
+	case "box":
+		// box(v, T): the interface value holding v with dynamic type T (what the conversion to interface{} yields)
+		T := e.parseType(typeArg(n.Args[1]))
+		v := e.eval(n.Args[0])
+		bn := vc.boxName(T)
+		srt := vc.d.sortOf(T)
+		vc.d.declFun(bn, fmt.Sprintf("(declare-fun %s (%s) Int)", bn, srt))
+		vc.d.declFun("un"+bn, fmt.Sprintf("(declare-fun un%s (Int) %s)", bn, srt))
+		bt := fmt.Sprintf("(%s %s)", bn, v.t)
+		e.addSide(fmt.Sprintf("(and (> %s 0) (= (typeof %s) %d) (= (un%s %s) %s))", bt, bt, vc.d.typeTag(T), bn, bt, v.t), bt)
+		return SVal{t: bt, typ: types.NewInterfaceType(nil, nil), sort: "Int"}
 	case "typeis":
 		// typeis(x, T): dynamic type of interface value x is T
 		v := e.eval(n.Args[0])
